@@ -121,13 +121,14 @@ let process_line (line : string) =
   match parts with
   | [] -> ()
   | pid :: items ->
-      let vars = ref [] and ops = ref [] and names = ref [] and cx = ref None in
+      let vars = ref [] and ops = ref [] and names = ref [] and cx = ref None and par = ref false in
       List.iter
         (fun it ->
           match split_on ' ' it with
           | "V" :: t -> vars := parse_var t :: !vars
           | "O" :: t -> ops := t :: !ops; names := List.hd t :: !names
           | [ "C"; p; m ] -> cx := Some (ctx_new (zs p) (mode_of m))
+          | "P" :: _ -> par := true
           | [] -> ()
           | _ -> failwith ("bad item: " ^ it))
         items;
@@ -146,7 +147,8 @@ let process_line (line : string) =
           List.iter (fun b -> Buffer.add_string buf (" x:" ^ hex_of_bytes b)) r.r_bytes;
           List.iter (print_dec buf) s;
           print_endline (Buffer.contents buf))
-        rs
+        rs;
+      if !par then Printf.printf "%s %d Par ok 0 0\n" pid (List.length names)
 
 let () =
   let _ = bytes_of_hex in
